@@ -326,7 +326,9 @@ func (x *Exec) ghost(name string, fn *ssa.Function, args []*Val, st *State, pos 
 			o.cells[c] = v
 		}
 		o.pc = "true"
+		x.guards = append(x.guards, st.pc)
 		rv, _ := x.run(fv.Fn.Fn, nil, fv.Fn.Bindings, o, false, nil)
+		x.guards = x.guards[:len(x.guards)-1]
 		return rv
 	case "has":
 		_, ok := x.mapLookup(st, args[0].T, args[0].S, args[1])
